@@ -720,7 +720,7 @@ fn replay_deep_rerun(doc: &Value) -> Option<String> {
 }
 
 /// "<n> <seed hex> <root>" lines of corpus/C01/selected-seeds.txt
-fn selected_seeds_corpus() -> Vec<(usize, [u8; 32], i64)> {
+pub fn selected_seeds_corpus() -> Vec<(usize, [u8; 32], i64)> {
     let p = report::verif_root().join("corpus").join(PROP).join("selected-seeds.txt");
     let mut v = Vec::new();
     if let Ok(s) = std::fs::read_to_string(p) {
